@@ -1,6 +1,7 @@
 import SuppModel.Props.C09
 import SuppModel.Witness.C09
-#print axioms SuppModel.Props.C09.C09_partial
+#print axioms SuppModel.Props.C09.C09
 #print axioms SuppModel.Props.C09.C09_transparent
+#print axioms SuppModel.Props.C09.C09_partial
 #print axioms SuppModel.Props.C09.C09_idempotent
 #print axioms SuppModel.Props.C09.C09_invariant
